@@ -2,7 +2,8 @@
 \*   mc:fixed   Kinds = all, FixedKinds = {conncap, maplimit, maplive, codequota, mapquota}, NodeCounts = {1}
 \*              INVARIANTS NoOvershoot NoDeviation RefusedNoEffect CounterExact        (repaired design: strict)
 \*   mc:asis    FixedKinds = {}: INVARIANTS Safe RefusedNoEffect CounterExact           (every overshoot is a named deviation)
-\*   mc:xnode   quota kinds, NodeCounts = {2}, repaired: INVARIANTS Safe ...             (what the per-instance mutex leaves open)
+\*   mc:open    quota kinds, NodeCounts = {1,2}, LockKeys = {owner, issuer}, repaired: INVARIANTS Safe ...
+\*              (what the per-instance mutex leaves open; what a mutex keyed on the wrong client leaves open)
 \*   gen / legacy: Emit = TRUE (one behaviour per transition; VIEW hides hist); all: EmitAll = TRUE, no VIEW
 \* bounds: NS = {2,3,4}, Lims = {0,1,2}, occupancy limit-1 at the start, each request admitted at most once
 CONSTANTS
@@ -10,6 +11,7 @@ CONSTANTS
   NS = @@NS@@
   Lims = @@LIMS@@
   NodeCounts = @@NODES@@
+  LockKeys = @@KEYS@@
   FixedKinds = @@FIXED@@
   WithRelease = @@REL@@
   Emit = @@EMIT@@
